@@ -193,6 +193,8 @@ def run_case(c):
     viol = []
     obs = {"runs": 1}
     base = record.run_solver(scn, listener=False)
+    if base.fp_exhausted:
+        return {"violations": [], "obs": {"fp_domain_exhausted": 1}, "skip": "fp-domain-exhausted"}
     marks = []
 
     def after_step(n, step):
